@@ -80,6 +80,8 @@ def _build(name):
         return odl.ProductSpace(odl.rn(2), odl.rn(2), weighting=[2.0, 0.5])
     if name == 'pw_rn2_2_c':
         return odl.ProductSpace(odl.rn(2), 2, weighting=2.0)
+    if name == 'pw_rn2_1_c':
+        return odl.ProductSpace(odl.rn(2), 1, weighting=2.0)      # ONE component, weighted
     if name == 'pw_rn2_2_wl':
         return odl.ProductSpace(odl.rn(2), 2, weighting=[1.0, 4.0])
     if name == 'nest_rn1_2x2':
